@@ -9,7 +9,12 @@ one initial-state tensor and hands it to several simulations in a row), and — 
 moment estimates with explicit 5-sigma error bars over a parameter sweep; the same statements on paths produced by MANY SMALL calls
 (one or two paths, one or two steps per call: whole calls without a single jump) -- the law of a path does not depend on what the other
 paths of the call drew --, with sigma = 0 the compensated drift of the jump-free steps of the jump models, and on LONG series (301 / 513
-time points over one year; rough Bergomi: forward variance and Var[log V] at several dates of the series).
+time points over one year; rough Bergomi: forward variance and Var[log V] at several dates of the series); TINY batches (1, 3, 5 paths per
+call, odd sizes too) driven by each of the library's engines (torch.randn, randn_antithetic, scrambled Sobol / Box-Muller over one step),
+pooled over thousands of calls: moments per path position, no deterministic path; ONE STARTING VALUE PER PATH (init_state as a bare tensor
+with one entry per path, or tuples of such tensors, in the shape each generator takes) for every generator and instrument: every path starts
+at its own value and is the exact solution from there for the recorded normals, the model reproduces it path by path (op gen with that
+path's initial state), and the closed-form moments hold block by block from each block's own starting value.
 """
 import math
 from common import *  # noqa
@@ -576,6 +581,364 @@ def supplied_normals_block(ctx, torch, S, g, n_scen, reqs, metas):
                     metas.append((case | {"path": r}, {"spot": [float(x) for x in o.spot[r].tolist()], "volatility": [float(x) for x in o.volatility[r].tolist()]}))
 
 
+ENGINE_ENTRIES = ("brownian", "geometric_brownian", "merton_jump", "kou_jump", "MertonJumpStock", "KouJumpStock")      # everything with an `engine` argument
+ENGINES = ("torch.randn", "randn_antithetic", "randn_sobol_boxmuller")
+
+
+def tiny_params(g, entry, engine_name):
+    """parameter sets for the tiny batches: a few time points, jump models mostly in the no-jump limit (the engine drives the diffusion; Merton's
+    jump sizes too).  With a positive intensity the horizon is 4 steps of 1/50: lam t = 0.8 jumps per path, so that a thousand pooled paths
+    contain hundreds of jumps and the 5-sigma bar of the log-variance (empirical fourth moment) is reliable"""
+    p = {"dt": g.choice([1 / 250, 1 / 50]), "n": 2 if engine_name == "randn_sobol_boxmuller" else g.choice([2, 3, 5]), "sigma": g.choice([0.2, 0.5]), "mu": g.choice([0.0, 0.3])}
+    if entry == "brownian":
+        return p | {"init": g.choice([0.0, 1.0, -1.0]), "mu": g.choice([0.0, 0.3, -0.5])}
+    p |= {"init": g.choice([1.0, 2.0])}
+    if entry in ("merton_jump", "MertonJumpStock"):
+        p |= {"lam": g.choice([0.0, 0.0, 10.0]), "jm": g.choice([0.0, -0.05]), "js": 0.05}
+    elif entry in ("kou_jump", "KouJumpStock"):
+        p |= {"lam": g.choice([0.0, 0.0, 10.0]), "mean_up": 0.05, "mean_down": 0.05, "p_up": g.choice([0.5, 0.3])}
+    if "lam" in p and engine_name == "randn_sobol_boxmuller":
+        p["lam"] = 0.0
+    if p.get("lam", 0.0) > 0:
+        p |= {"dt": 1 / 50, "n": 5}
+    return p
+
+
+def tiny_batches(ctx, torch, S, entry, engine_name, N, M, p, origin):
+    """The law of a path depends neither on how many paths the call simulates nor on which of the library's engines supplies the normals:
+    M calls with N paths each (N tiny, odd as well as even: 1, 3, 5 -- one path is what simulate() draws by default).  Path POSITION r of
+    the calls gives M independent paths with exactly the law of the model -- also for randn_antithetic (every row is +z or -z of a row z of
+    independent standard normals) and, over ONE time step, for the scrambled Sobol / Box-Muller engine (every entry is marginally standard
+    normal; entries of one call are dependent, which is why several steps are not pooled for it) --, so per position: terminal mean and
+    variance / log-variance against the closed forms with 5 standard errors.  And no path is deterministic: a path whose increments ALL equal
+    the drift to 1e-12 (every one of its normals zero) is an event of probability zero."""
+    import pfhedge.instruments as I
+    from pfhedge.stochastic import randn_antithetic, randn_sobol_boxmuller
+    f64 = torch.float64
+    eng = {"torch.randn": torch.randn, "randn_antithetic": randn_antithetic, "randn_sobol_boxmuller": randn_sobol_boxmuller}[engine_name]
+    dt, n, mu, sg, x0, lam = p["dt"], p["n"], p["mu"], p["sigma"], p["init"], p.get("lam", 0.0)
+    T = (n - 1) * dt
+    case = {"kind": "tiny-batches", "entry": entry, "engine": engine_name, "n_paths_per_call": N, "n_calls": M, "origin": origin} | p
+    ctx.stats[f"tiny-batches {entry}/{engine_name}/N={N}"] += 1
+    name = {"MertonJumpStock": "merton_jump", "KouJumpStock": "kou_jump"}.get(entry, entry)
+    mj = dict(mu=mu, sigma=sg, jump_per_year=lam, jump_mean=p.get("jm"), jump_std=p.get("js"), dt=dt, dtype=f64, engine=eng)
+    kj = dict(sigma=sg, mu=mu, jump_per_year=lam, jump_mean_up=p.get("mean_up"), jump_mean_down=p.get("mean_down"), jump_up_prob=p.get("p_up"), dt=dt, dtype=f64, engine=eng)
+    if entry in ("MertonJumpStock", "KouJumpStock"):
+        inst = I.MertonJumpStock(**mj) if entry == "MertonJumpStock" else I.KouJumpStock(**kj)      # ONE instrument, simulated again and again
+
+        def call():
+            inst.simulate(n_paths=N, time_horizon=T, init_state=(x0,))
+            return inst.spot
+    elif entry == "brownian":
+        call = lambda: S.generate_brownian(N, n, init_state=(x0,), sigma=sg, mu=mu, dt=dt, dtype=f64, engine=eng)      # noqa
+    elif entry == "geometric_brownian":
+        call = lambda: S.generate_geometric_brownian(N, n, init_state=(x0,), sigma=sg, mu=mu, dt=dt, dtype=f64, engine=eng)      # noqa
+    elif entry == "merton_jump":
+        call = lambda: S.generate_merton_jump(N, n, init_state=(x0,), **mj)      # noqa
+    else:
+        call = lambda: S.generate_kou_jump(N, n, init_state=(x0,), **kj)      # noqa
+    outs = []
+    for c in range(M):
+        try:
+            o = call()
+        except Exception as e:  # noqa
+            ctx.case(case, True, tag="tiny-batches")
+            ctx.fail("a generator / instrument driven by one of the library's engines raised on a tiny batch", case | {"call": c}, key=f"tiny-batches:{entry}:error", detail=repr(e)[:200])
+            return
+        if tuple(o.shape) != (N, n):
+            ctx.case(case, True, tag="tiny-batches")
+            ctx.fail("a generator / instrument driven by one of the library's engines does not return (n_paths, n) values on a tiny batch", case | {"call": c},
+                     key=f"tiny-batches:{entry}:shape", detail=list(o.shape))
+            return
+        outs.append(o)
+    outs = torch.stack(outs).to(f64)                                     # (calls, paths, time points)
+    # ---- no deterministic path
+    comp = lam * jump_compensator(name, p) if lam else 0.0
+    inc = outs.diff(dim=2) - mu * dt if name == "brownian" else outs.log().diff(dim=2) - (mu - sg * sg / 2 - comp) * dt
+    dead = inc.abs().amax(dim=2) <= 1e-12                                # (calls, paths)
+    ctx.case(case | {"stat": "no deterministic path"}, True, tag="tiny-batches")
+    if bool(dead.any()):
+        c, r = [int(x) for x in dead.nonzero()[0].tolist()]
+        ctx.fail(f"{name} driven by {engine_name}, {N} path(s) per call: a path is deterministic -- every increment equals the drift, as if all of its normals "
+                 "were zero (an event of probability zero under the model)", case | {"stat": "no deterministic path", "call": c, "path": r},
+                 key=f"tiny-batches:{entry}:deterministic-path",
+                 detail={"deterministic_paths": int(dead.sum()), "of": M * N, "path": [float(x) for x in outs[c, r].tolist()],
+                         "deterministic_paths_per_position": [int(x) for x in dead.sum(dim=0).tolist()]})
+    # ---- per path position: the closed-form terminal moments
+
+    def chk(what, r, est, se, exact, key):
+        ctx.case(case | {"stat": what, "path_position": r}, True, tag="tiny-batches")
+        if not abs(est - exact) <= 5 * se + 1e-12:
+            ctx.fail(f"{name} driven by {engine_name}, {N} path(s) per call, pooled over {M} calls at path position {r}: {what} deviates from its closed form by more "
+                     "than 5 standard errors", case | {"stat": what, "path_position": r}, key=key, detail={"estimate": est, "std_error": se, "closed_form": exact})
+    for r in range(N):
+        x = outs[:, r, -1]
+        m, se = mean_se(x)
+        if name == "brownian":
+            chk("terminal mean = x0 + mu t", r, m, se, x0 + mu * T, f"tiny-batches:{entry}:mean")
+            v, sev = var_se(x)
+            chk("terminal variance = sigma^2 t", r, v, sev, sg * sg * T, f"tiny-batches:{entry}:var")
+        else:
+            chk("terminal mean = S0 exp(mu t)", r, m, se, x0 * math.exp(mu * T), f"tiny-batches:{entry}:mean")
+            v, sev = var_se((x / x0).log())
+            chk("log-variance = sigma^2 t (+ the jump contribution)", r, v, sev, logvar_total(name, p), f"tiny-batches:{entry}:logvar")
+
+
+# ---- one starting value PER PATH.  `init_state` "also accepts a torch.Tensor": a tensor with one entry per path starts path i at its own
+# value.  Shapes the generators take (instruments: as the generator they are built on): Brownian / geometric Brownian / Merton broadcast the
+# state against (n_paths, n_steps): shape (n_paths, 1); Vasicek / CIR / local volatility / Heston write it into column 0: shape (n_paths,);
+# Kou reshapes it itself: either; rough Bergomi multiplies: (n_paths, 1).  One-factor models take the tensor bare or in a 1-tuple, the
+# two-factor ones a tuple of two such tensors (or a tensor and a number).
+PER_PATH_SHAPES = {"brownian": ["(N,1)"], "geometric_brownian": ["(N,1)"], "merton_jump": ["(N,1)"], "kou_jump": ["(N,)", "(N,1)"], "vasicek": ["(N,)"], "cir": ["(N,)"],
+                   "local_volatility": ["(N,)"], "heston": ["(N,)"], "rough_bergomi": ["(N,1)"]}
+TWO_FACTOR = ("heston", "rough_bergomi")
+PER_PATH_STARTS = {"brownian": [0.0, 1.0, -1.0, 2.5, 100.0], "vasicek": [0.0, 0.04, 0.2, -0.02, 1.0], "cir": [0.0, 0.04, 0.2, 1e-6, 1.0]}
+PER_PATH_V0 = [0.04, 0.2, 0.01, 0.09]
+
+
+def per_path_state(torch, name, cols, shape, form, dtype):
+    """the init_state argument: cols = one list of starting values (one per path) per state component"""
+    ts = [torch.tensor(c, dtype=dtype).reshape((-1, 1) if shape == "(N,1)" else (-1,)) for c in cols]
+    if name in TWO_FACTOR:
+        return (ts[0], cols[1][0]) if form == "tuple (tensor, number)" else tuple(ts)
+    return ts[0] if form == "bare" else (ts[0],)
+
+
+class PerPathInit:
+    """while active, generate_<name> of pfhedge.stochastic (via generator) or <Instrument>.simulate (via instrument) is CALLED WITH `arg` as
+    init_state, whatever the caller wrote there: lets stoch_common.run_generator (which records the draws and builds the model requests, and
+    writes the initial state as a tuple of numbers) run the real code on a per-path initial state"""
+
+    def __init__(self, name, via, arg):
+        import pfhedge.stochastic as S
+        import pfhedge.instruments as I
+        self.arg = arg
+        self.owner, self.attr = (getattr(I, INSTRUMENTS[name]), "simulate") if via == "instrument" else \
+            (S, "generate_local_volatility_process" if name == "local_volatility" else "generate_" + name)
+
+    def __enter__(self):
+        orig, arg = getattr(self.owner, self.attr), self.arg
+        self.orig = orig
+
+        def with_arg(*a, **k):
+            k["init_state"] = arg
+            return orig(*a, **k)
+        setattr(self.owner, self.attr, with_arg)
+        return self
+
+    def __exit__(self, *exc):
+        setattr(self.owner, self.attr, self.orig)
+        return False
+
+
+def per_path_block(ctx, torch, S, g, n_rand, reqs, metas):
+    """every generator and every instrument started from one value per path (see PER_PATH_SHAPES), in every spelling, with recorded draws:
+    (a) every path starts at ITS OWN value; Brownian / geometric Brownian paths -- and Merton / Kou paths at zero intensity -- are the exact
+    solution from that value step by step for the recorded normals; (b) the model (op gen, one request per path with that path's initial
+    state) reproduces every series from the same draws.  A fixed plan (every generator x generator / instrument x spelling x shape) runs on
+    every tier, random picks follow."""
+    plan = []
+    for name in GENERATORS:
+        for via in ["generator"] + (["instrument"] if name in INSTRUMENTS else []):
+            for shape in PER_PATH_SHAPES[name]:
+                for form in (["tuple of tensors", "tuple (tensor, number)"] if name in TWO_FACTOR else ["bare", "tuple"]):
+                    plan.append((name, via, shape, form))
+    for it in range(len(plan) + n_rand):
+        name, via, shape, form = plan[it] if it < len(plan) else g.choice(plan)
+        p = gen_params(g, name)
+        N = p["N"] = g.choice([2, 3, 4])
+        if name in ("merton_jump", "kou_jump") and (form == "bare" or g.chance(0.5)):
+            p["lam"] = 0.0
+        pool = PER_PATH_STARTS.get(name, [0.5, 1.0, 2.0, 2.5, 100.0])
+        first = g.choice(pool)
+        x0s = [first] + [g.choice([x for x in pool if x != first])] + [g.choice(pool) for _ in range(N - 2)]      # (path 1 never starts where path 0 does)
+        cols = [x0s]
+        if name in TWO_FACTOR:
+            v_first = g.choice(PER_PATH_V0)
+            v0s = [v_first] * N if form == "tuple (tensor, number)" else [v_first] + [g.choice([x for x in PER_PATH_V0 if x != v_first])] + [g.choice(PER_PATH_V0) for _ in range(N - 2)]
+            cols.append(v0s)
+            p |= {"s0": x0s[0], "v0": v0s[0]}
+        else:
+            p["init"] = x0s[0]
+        case = {"kind": "per-path-init", "generator": name, "via": via, "init_state_spelling": form, "shape_of_the_state_tensor": shape,
+                "starting_values": cols[0] if len(cols) == 1 else cols, "params": p}
+        ctx.case(case, True, tag="per-path-init")
+        ctx.stats[f"per-path-init {name}/{via}/{form}"] += 1
+        ctx.traces += 1
+        try:
+            with PerPathInit(name, via, per_path_state(torch, name, cols, shape, form, torch.float64)):
+                out, rq, rec = run_generator(torch, name, p, via=via)
+        except InternalError:
+            raise
+        except GridMismatch as e:
+            ctx.fail("an instrument simulated over the horizon (n-1) dt does not return n time steps", case, key=f"inst:{name}:grid", detail=str(e)[:200])
+            continue
+        except Exception as e:  # noqa
+            ctx.fail("a generator / instrument raised on one starting value per path", case, key=f"per-path-init:{name}:error", detail=repr(e)[:200])
+            continue
+        if any(tuple(t.shape) != (N, p["n"]) for t in out.values()):
+            ctx.fail("one starting value per path: a series does not have (n_paths, n) values", case, key=f"per-path-init:{name}:shape",
+                     detail={k: list(t.shape) for k, t in out.items()})
+            continue
+        # (a) every path starts at its own value ...
+        starts_ok = True
+        for bn, col in zip(["spot", "variance"], cols):
+            got = [float(x) for x in out[bn][:, 0].tolist()]
+            if any(abs(a - b) > 1e-9 * max(1.0, abs(b)) for a, b in zip(got, col)):
+                starts_ok = False
+                ctx.fail(f"{name}: with one starting value per path the paths do not start at their own values (the law holds from ANY starting value: at t = 0 "
+                         "a path is at the value it was given)", case | {"series": bn}, key=f"per-path-init:{name}:start", detail={"first_column": got, "requested": col})
+        # ... and is the exact solution from there for the recorded normals
+        if starts_ok and (name in ("brownian", "geometric_brownian") or (name in ("merton_jump", "kou_jump") and p["lam"] == 0.0)) and p["n"] >= 2:
+            for r in range(N):
+                zs = dec_flt(rq[r]["draws"]["z"])
+                path = [float(x) for x in out["spot"][r].tolist()]
+                s = x0s[r]
+                for i in range(1, p["n"]):
+                    s = s + p["mu"] * p["dt"] + p["sigma"] * math.sqrt(p["dt"]) * zs[i] if name == "brownian" else \
+                        s * math.exp((p["mu"] - p["sigma"] ** 2 / 2) * p["dt"] + p["sigma"] * math.sqrt(p["dt"]) * zs[i])
+                    if abs(path[i] - s) > 1e-9 * max(1.0, abs(s)):
+                        ctx.fail(f"{name}: with one starting value per path a path is not the exact SDE solution from ITS starting value for the supplied normals",
+                                 case | {"path": r, "step": i}, key=f"per-path-init:{name}:sde-step", detail={"impl": path[i], "exact": s, "starting_value": x0s[r]})
+                        break
+                else:
+                    continue
+                break
+        # (b) the model, path by path from that path's initial state
+        fb = float_bits
+        for r, q in enumerate(rq):
+            q = dict(q, p=dict(q["p"]))
+            if name in TWO_FACTOR:
+                q["p"] |= {"s0": fb(cols[0][r]), "v0": fb(cols[1][r])}
+                if "pc" in q:
+                    q["pc"] = dict(q["pc"]) | {"v0": fb(cols[1][r])}
+            else:
+                q["p"]["init"] = fb(x0s[r])
+            reqs.append(q)
+            metas.append((case | {"path": r}, {k: [float(x) for x in v[r].tolist()] for k, v in out.items()}))
+
+
+def per_path_moments(ctx, torch, S, g, name, NP, origin):
+    """search support: the closed-form moments PER STARTING VALUE.  NP paths in K blocks, block k started at its own value through ONE
+    init_state tensor with one entry per path (bare or in a tuple; generator or instrument); each block's terminal mean (and variance /
+    log-variance around its own starting value) against the closed form from THAT value, 5 standard errors."""
+    p = sweep_params(g, name)
+    via = "generator" if name == "brownian" else g.choice(["generator", "instrument"])
+    shape = g.choice(PER_PATH_SHAPES[name])
+    form = g.choice(["tuple of tensors", "tuple (tensor, number)"] if name in TWO_FACTOR else ["bare", "bare", "tuple"])
+    p |= {"n": g.choice([6, 11]), "via": via, "dtype": "float64"}
+    if name == "local_volatility":
+        p |= {"dt": g.choice([1 / 250, 1 / 50]), "a": g.choice([0.2, 0.4]), "b": g.choice([0.0, 0.1]), "c": 0.0}
+    if name == "rough_bergomi":
+        p |= {"n": 6, "dt": 0.2, "alpha": g.choice([-0.4, -0.3, -0.2]), "eta": g.choice([0.5, 1.0]), "rho": g.choice([-0.9, 0.0])}      # a one-year horizon (others: K4)
+    if name in ("cir", "heston"):
+        # (blocks of a few thousand paths: a moderate vol-of-vol, 2 kappa theta / sigma^2 >= 2, keeps the 5-sigma bar of the variance estimate
+        # reliable; the QE regimes are the business of the sweeps above)
+        p |= {"theta": g.choice([0.04, 0.1]), "sigma": 0.2, "kappa": g.choice([1.0, 3.0])}
+    K = g.choice([2, 3])
+    pool = {"brownian": [0.0, 1.0, -1.0, 5.0], "vasicek": [0.0, 0.04, 0.2, -0.05], "cir": [0.0, 0.04, 0.2, 0.5], "local_volatility": [0.5, 1.0, 2.0]}.get(name, [0.5, 1.0, 2.0, 10.0])
+    starts, vstarts = [], []
+    while len(starts) < K:
+        x = g.choice(pool)
+        if x not in starts:
+            starts.append(x)
+    vpool = [0.04, 0.2, 0.09]
+    if name == "rough_bergomi":
+        vpool = [p["xi"], 2 * p["xi"], p["xi"] / 2]
+    while name in TWO_FACTOR and len(vstarts) < K:
+        v = g.choice(vpool)
+        if form == "tuple (tensor, number)":
+            vstarts = [v] * K
+        elif v not in vstarts:
+            vstarts.append(v)
+    B = NP // K
+    dt64 = torch.float64
+    cols = [[x for x in starts for _ in range(B)]] + ([[v for v in vstarts for _ in range(B)]] if name in TWO_FACTOR else [])
+    arg = per_path_state(torch, name, cols, shape, form, dt64)
+    dt, n = p["dt"], p["n"]
+    T = (n - 1) * dt
+    case = {"kind": "per-path-moments", "generator": name, "origin": origin, "init_state_spelling": form, "shape_of_the_state_tensor": shape, "starting_values_of_the_blocks": starts,
+            "paths_per_block": B} | ({"starting_variances_of_the_blocks": vstarts} if name in TWO_FACTOR else {}) | p
+    G = _ViaInstrument(torch) if via == "instrument" else S
+    ctx.stats[f"per-path-moments {name}/{via}"] += 1
+    try:
+        if name == "brownian":
+            o = G.generate_brownian(B * K, n, init_state=arg, sigma=p["sigma"], mu=p["mu"], dt=dt, dtype=dt64)
+        elif name == "geometric_brownian":
+            o = G.generate_geometric_brownian(B * K, n, init_state=arg, sigma=p["sigma"], mu=p["mu"], dt=dt, dtype=dt64)
+        elif name == "merton_jump":
+            o = G.generate_merton_jump(B * K, n, init_state=arg, mu=p["mu"], sigma=p["sigma"], jump_per_year=p["lam"], jump_mean=p["jm"], jump_std=p["js"], dt=dt, dtype=dt64)
+        elif name == "kou_jump":
+            o = G.generate_kou_jump(B * K, n, init_state=arg, sigma=p["sigma"], mu=p["mu"], jump_per_year=p["lam"], jump_mean_up=p["mean_up"], jump_mean_down=p["mean_down"],
+                                    jump_up_prob=p["p_up"], dt=dt, dtype=dt64)
+        elif name == "vasicek":
+            o = G.generate_vasicek(B * K, n, init_state=arg, kappa=p["kappa"], theta=p["theta"], sigma=p["sigma"], dt=dt, dtype=dt64)
+        elif name == "cir":
+            o = G.generate_cir(B * K, n, init_state=arg, kappa=p["kappa"], theta=p["theta"], sigma=p["sigma"], dt=dt, dtype=dt64)
+        elif name == "heston":
+            o = G.generate_heston(B * K, n, init_state=arg, kappa=p["kappa"], theta=p["theta"], sigma=p["sigma"], rho=p["rho"], dt=dt, dtype=dt64)
+        elif name == "local_volatility":
+            a, b, c = p["a"], p["b"], p["c"]
+            o = G.generate_local_volatility_process(B * K, n, lambda t, s: a + b * s + c * t, init_state=arg, dt=dt, dtype=dt64)
+        else:
+            o = G.generate_rough_bergomi(B * K, n, init_state=arg, alpha=p["alpha"], rho=p["rho"], eta=p["eta"], xi=p["xi"], dt=dt, dtype=dt64)
+    except GridMismatch as e:
+        ctx.case(case, True, tag="per-path-moments")
+        ctx.fail("an instrument simulated over the horizon (n-1) dt does not return n time steps", case, key=f"inst:{name}:grid", detail=str(e)[:200])
+        return
+    except Exception as e:  # noqa
+        ctx.case(case, True, tag="per-path-moments")
+        ctx.fail("a generator / instrument raised on one starting value per path", case, key=f"per-path-init:{name}:error", detail=repr(e)[:200])
+        return
+    spot = (o if isinstance(o, torch.Tensor) else o.spot).to(dt64)
+    var = None if isinstance(o, torch.Tensor) or name == "local_volatility" else o.variance.to(dt64)
+
+    def chk(what, k, est, se, exact, key, slack=1e-12):
+        ck = case | {"stat": what, "block": k, "starting_value": starts[k]}
+        ctx.case(ck, True, tag="per-path-moments")
+        if not abs(est - exact) <= 5 * se + slack:
+            ctx.fail(f"{name}: {what} of the block of paths started at {starts[k]}" + (f" (variance {vstarts[k]})" if name in TWO_FACTOR else "")
+                     + " deviates from its closed form from THAT starting value by more than 5 standard errors", ck, key=key,
+                     detail={"estimate": est, "std_error": se, "closed_form": exact, "mean_of_the_block_at_t0": float(spot[k * B:(k + 1) * B, 0].mean())})
+    for k in range(K):
+        x0 = starts[k]
+        x = spot[k * B:(k + 1) * B, -1]
+        m, se = mean_se(x)
+        if name == "brownian":
+            chk("terminal mean = x0 + mu t", k, m, se, x0 + p["mu"] * T, "per-path-moments:brownian:mean")
+            v, sev = var_se(x)
+            chk("terminal variance = sigma^2 t", k, v, sev, p["sigma"] ** 2 * T, "per-path-moments:brownian:var")
+        elif name in ("geometric_brownian", "merton_jump", "kou_jump"):
+            chk("terminal mean = S0 exp(mu t)", k, m, se, x0 * math.exp(p["mu"] * T), f"per-path-moments:{name}:mean")
+            v, sev = var_se((x / x0).log())
+            chk("variance of log(S_t / S0) = sigma^2 t (+ the jump contribution)", k, v, sev, logvar_total(name, p), f"per-path-moments:{name}:logvar")
+        elif name == "vasicek":
+            kp, th, sg = p["kappa"], p["theta"], p["sigma"]
+            chk("mean = theta + (x0 - theta) exp(-kappa t)", k, m, se, th + (x0 - th) * math.exp(-kp * T), "per-path-moments:vasicek:mean")
+            v, sev = var_se(x)
+            chk("variance = sigma^2 (1 - exp(-2 kappa t)) / (2 kappa)", k, v, sev, sg ** 2 * (1 - math.exp(-2 * kp * T)) / (2 * kp), "per-path-moments:vasicek:var", slack=1e-18)
+        elif name in ("cir", "heston"):
+            kp, th, sg = p["kappa"], p["theta"], p["sigma"]
+            v0 = x0 if name == "cir" else vstarts[k]
+            y = x if name == "cir" else var[k * B:(k + 1) * B, -1]
+            e1 = math.exp(-kp * T)
+            m_, se_ = mean_se(y)
+            chk("variance-process mean = theta + (v0 - theta) exp(-kappa t)", k, m_, se_, th + (v0 - th) * e1, f"per-path-moments:{name}:var-mean" if name == "heston" else "per-path-moments:cir:mean")
+            v, sev = var_se(y)
+            exactv = v0 * sg ** 2 / kp * (e1 - e1 * e1) + th * sg ** 2 / (2 * kp) * (1 - e1) ** 2
+            chk("variance-process variance = v0 sigma^2/kappa (e^-kt - e^-2kt) + theta sigma^2/(2 kappa) (1 - e^-kt)^2", k, v, sev, exactv,
+                f"per-path-moments:{name}:var-var" if name == "heston" else "per-path-moments:cir:var", slack=1e-4 * exactv + 1e-18)
+            if name == "heston":
+                chk("terminal spot mean = S0 (martingale)", k, m, se, x0, "per-path-moments:heston:mean")
+        elif name == "local_volatility":
+            chk("terminal mean = S0 (martingale)", k, m, se, x0, "per-path-moments:localvol:mean")
+        else:
+            # (one-year horizon, eta <= 1: see the unit-horizon statements of moment_suite for the tolerance beyond the 5 standard errors)
+            mv, sev = mean_se(var[k * B:(k + 1) * B, -1])
+            chk("mean forward variance E[V(1)] = V(0)", k, mv, sev, vstarts[k], "per-path-moments:rough_bergomi:forward-variance", slack=0.005 * vstarts[k])
+            chk("terminal spot mean = S0 (martingale)", k, m, se, x0, "per-path-moments:rough_bergomi:spot-mean")
+
+
 def check(ctx):
     torch, pfhedge = import_impl()
     import pfhedge.stochastic as S
@@ -658,6 +1021,7 @@ def check(ctx):
                              key=f"gen:{name}:zero-intensity", detail={"impl": path[i], "gbm": s})
                     break
     supplied_normals_block(ctx, torch, S, g, 60 if ctx.tier == "quick" else 400, reqs, metas)
+    per_path_block(ctx, torch, S, g, 20 if ctx.tier == "quick" else 300, reqs, metas)
     try:
         outs = ctx.driver(reqs)
     except DriverBroken as e:
@@ -738,6 +1102,29 @@ def check(ctx):
         name = g.choice(["merton_jump", "kou_jump"])
         sp_ = small_params(g, name)
         jump_free_steps(ctx, torch, S, name, sp_, max(150, NS // (2 * sp_["batch"] * (sp_["n"] - 1))), "sweep")
+    # ---------------- TINY batches (1, 3, 5 paths per call -- odd numbers too; one path is what simulate() draws by default) driven by each of the
+    # library's engines, pooled over thousands of calls: per path position the terminal mean and variance / log-variance, and no deterministic
+    # path.  Corpus on every tier: randn_antithetic with 1, 3 and 5 paths for Brownian and geometric Brownian, one odd size for each of the
+    # Merton / Kou generators and instruments (one instrument simulated again and again), torch.randn and the scrambled Sobol / Box-Muller
+    # engine (one time step) on two entries each; random: any entry x engine x 1..5 paths
+    MT = 2000 if ctx.tier == "quick" else 6000
+    tiny_corpus = [("brownian", "randn_antithetic", 1, MT), ("brownian", "randn_antithetic", 3, MT), ("brownian", "randn_antithetic", 5, MT),
+                   ("geometric_brownian", "randn_antithetic", 1, MT), ("geometric_brownian", "randn_antithetic", 3, MT), ("geometric_brownian", "randn_antithetic", 5, MT),
+                   ("merton_jump", "randn_antithetic", 1, MT // 2), ("kou_jump", "randn_antithetic", 3, MT // 2),
+                   ("MertonJumpStock", "randn_antithetic", 3, MT // 2), ("KouJumpStock", "randn_antithetic", 1, MT // 2),
+                   ("brownian", "torch.randn", 3, MT // 2), ("geometric_brownian", "torch.randn", 1, MT // 2),
+                   ("brownian", "randn_sobol_boxmuller", 3, MT // 2), ("geometric_brownian", "randn_sobol_boxmuller", 1, MT // 2)]
+    for entry, ename, N_, M_ in tiny_corpus:
+        tiny_batches(ctx, torch, S, entry, ename, N_, M_, tiny_params(g, entry, ename), "corpus")
+    for sw in range(2 if ctx.tier == "quick" else 12):
+        entry, ename = g.choice(ENGINE_ENTRIES), g.choice(ENGINES)
+        tiny_batches(ctx, torch, S, entry, ename, g.choice([1, 2, 3, 4, 5]), MT // 2, tiny_params(g, entry, ename), "sweep")
+    # ---------------- one starting value PER PATH (a bare init_state tensor with one entry per path, or a tuple of such tensors): the closed-form
+    # moments hold block by block from each block's own starting value -- every generator once (generator or instrument, spelling and
+    # shape at random)
+    for sw in range(1 if ctx.tier == "quick" else 4):
+        for name in GENERATORS:
+            per_path_moments(ctx, torch, S, g, name, 12000 if ctx.tier == "quick" else 60000, "sweep")
     # ---------------- failing-input search directed at the generators whose correspondence broke:
     # the same moment statements evaluated at (tamed variants of) the disagreeing parameter sets
     seen = set()
@@ -765,6 +1152,10 @@ def check(ctx):
              "compensated drift vs Binomial(steps, exp(-lam dt)), exact tail); caller-kept tensors used for "
              "2-4 simulations in a row (one tensor of normals per shape handed out by the engine as the same object / .to() / a view, optionally one 0-dim initial-state tensor; Brownian, "
              "geometric Brownian, Merton / Kou generators and instruments at zero intensity, instruments simulated again) checked step by step against the normals the caller generated and "
-             "sent to the model with those normals; a volatility callable handing out one kept tensor (model only); non-trivial = n >= 2; distinct = sha1 of canonical case",
+             "sent to the model with those normals; a volatility callable handing out one kept tensor (model only); tiny batches (1-5 paths per call, corpus: randn_antithetic with "
+             "1, 3, 5 paths on Brownian / geometric Brownian, one odd size per Merton / Kou generator and instrument, torch.randn and scrambled Sobol / Box-Muller on two entries; "
+             "1000-2000 / 3000-6000 calls pooled per path position: mean, variance / log-variance, no deterministic path); one starting value per path (fixed plan: every generator x "
+             "generator / instrument x bare tensor / tuple x accepted shape, with recorded draws against the exact solution and the model; moments per block of paths from its own "
+             "starting value, every generator); non-trivial = n >= 2; distinct = sha1 of canonical case",
         explanation="pathwise statements and one-step / inductive moment formulas are theorems (Props/C10); the law of torch's RNG is trusted; the "
                     "large-sample estimates are search support only.")
